@@ -118,33 +118,51 @@ theorem C06_available_full_false : ¬ C06_available_Full := fun h => by
 /-- **Reading `description` changes nothing**: for every engine whose DESCRIBE leaves the engine state alone,
     every connection and every cursor: data, session and *all* cursors (this one's pending result set, fetch
     position, rowcount, sqlstate included) are exactly what they were. -/
-theorem C06_description_pure {D S R Q} (e : Engine D R Q) (hpure : ∀ d q, (e.describe d q).1 = d)
+theorem C06_description_pure {D S R Q} (e : Engine D R Q) (hpure : ∀ d q p, (e.describe d q p).1 = d)
     (c : Conn D S R Q) (i : Nat) : (description e c i).1 = c := by
   unfold description
   cases c.cursors[i]? with
   | none => rfl
   | some cur => simp [hpure]
 
+/-- **`description` depends on the last execution only**: two cursors (on connections with the same engine state)
+    whose last executed SQL and parameters are equal get the same description — whatever else they hold and
+    whatever they executed or described before.  In particular a cursor that re-executes a text after the catalog
+    changed, or with differently typed parameters, is described like a fresh cursor would be. -/
+theorem C06_description_last_only {D S R Q} (e : Engine D R Q) (c c' : Conn D S R Q) (i j : Nat) (cur cur' : Cur R Q)
+    (hd : c.duck = c'.duck) (hi : c.cursors[i]? = some cur) (hj : c'.cursors[j]? = some cur')
+    (hsql : cur.lastSql = cur'.lastSql) (hpar : cur.lastParams = cur'.lastParams) :
+    (description e c i).2 = (description e c' j).2 := by
+  simp [description, hi, hj, hd, hsql, hpar]
+
 /-- **`describe(q)` does not execute `q`**: only the engine's DESCRIBE is called; data, session and every *other*
     cursor are unchanged, the cursor itself now holds the DESCRIBE rows (as after any execute). -/
-theorem C06_describe_pure {D S R Q} (e : Engine D R Q) (hpure : ∀ d q, (e.describe d q).1 = d) (descOf : Q → Q)
-    (c : Conn D S R Q) (i : Nat) (q : Q) :
-    (describe e descOf c i q).1.duck = c.duck ∧ (describe e descOf c i q).1.session = c.session ∧
-    (describe e descOf c i q).1.cursors.length = c.cursors.length ∧
-    ∀ j, j ≠ i → (describe e descOf c i q).1.cursors[j]? = c.cursors[j]? := by
+theorem C06_describe_pure {D S R Q} (e : Engine D R Q) (hpure : ∀ d q p, (e.describe d q p).1 = d) (descOf : Q → Q)
+    (c : Conn D S R Q) (i : Nat) (q : Q) (params : Option Q) :
+    (describe e descOf c i q params).1.duck = c.duck ∧ (describe e descOf c i q params).1.session = c.session ∧
+    (describe e descOf c i q params).1.cursors.length = c.cursors.length ∧
+    ∀ j, j ≠ i → (describe e descOf c i q params).1.cursors[j]? = c.cursors[j]? := by
   unfold describe
   cases c.cursors[i]? with
   | none => exact ⟨rfl, rfl, rfl, fun _ _ => rfl⟩
   | some cur =>
-    refine ⟨hpure _ _, rfl, by simp, fun j hj => ?_⟩
+    refine ⟨hpure _ _ _, rfl, by simp, fun j hj => ?_⟩
     simp [Ne.symm hj]
 
-/-- **`describe(q)` = `description` after executing `q`**: both hand `DESCRIBE q` to the engine and convert the
-    rows with the same function, so for a pure DESCRIBE they return the same thing. -/
+/-- **`describe(q)` = `description` after executing `q`**: both hand `DESCRIBE q` with the same parameters to the
+    engine and convert the rows with the same function, so for a pure DESCRIBE they return the same thing. -/
 theorem C06_describe_eq_description {D S R Q} (e : Engine D R Q) (descOf : Q → Q) (c : Conn D S R Q) (i : Nat) (q : Q)
-    (cur : Cur R Q) (hc : c.cursors[i]? = some cur) (hlast : cur.lastSql = some q) :
-    (describe e descOf c i q).2 = (description e c i).2 := by
-  simp [describe, description, hc, hlast]
+    (params : Option Q) (cur : Cur R Q) (hc : c.cursors[i]? = some cur) (hlast : cur.lastSql = some q)
+    (hpar : cur.lastParams = params) :
+    (describe e descOf c i q params).2 = (description e c i).2 := by
+  simp [describe, description, hc, hlast, hpar]
+
+/-- **`describe()` of a seeded query sends no `setseed`**: the seed prefix is added only when the *top-level*
+    statement carries the seed; under a DESCRIBE wrapper exactly one statement — the DESCRIBE — is sent, so the
+    session's random generator is not touched.  (Executing the seeded query itself does send the prefix.) -/
+theorem C06_describe_sends_no_setseed (seed : Option Nat) :
+    sent ⟨true, seed⟩ = [.statement] ∧ (∀ s, sent ⟨false, some s⟩ = [.setseed s, .statement]) ∧ sent ⟨false, none⟩ = [.statement] := by
+  cases seed <;> exact ⟨rfl, fun _ => rfl, rfl⟩
 
 /-! ### non-vacuity -/
 example : searchDec "DECIMAL(10,2)".toList = some (10, 2) := by decide
